@@ -67,9 +67,8 @@ pub(crate) mod verif_e7 {
         let mut d = [0u8; BLK];
         let mut i = 0;
         while i < BLK { d[i] = (bits >> i) & 1; i += 1; } // alphabet {0, 1}: collisions and matches are frequent
-        let n: usize = vk::any();
-        vk::assume(n >= 1 && n <= BLK);
-        (d, n)
+        // block lengths are concrete (symbolic lengths make every slice/iterator loop bound symbolic and exhaust CBMC)
+        (d, BLK)
     }
 
     /// two blocks, window of 2 blocks: matches across the block boundary, 8-slot suffix store (hash collisions)
@@ -129,6 +128,6 @@ pub(crate) mod verif_e7 {
     }
 }
 //@end
-//@harness e7_two_blocks kind=proof fn=MatchGenerator::next_sequence,MatchGenerator::add_data,MatchGenerator::reserve,MatchGenerator::skip_matching,MatchGenerator::add_suffixes_till,SuffixStore::insert,SuffixStore::get,SuffixStore::key props=C17,C15,C02 tier=quick profile=dbg bound="2 blocks of <= 6 bytes over the alphabet {0,1}, window 12 bytes, 8-slot suffix store" witness=e7_two_blocks timeout=3000 heavy=yes
-//@harness e7_eviction_reset kind=proof fn=MatchGenerator::next_sequence,MatchGenerator::add_data,MatchGenerator::reserve,MatchGenerator::reset props=C17 tier=quick profile=dbg bound="blocks of <= 6 bytes over {0,1}, window 9 bytes (eviction), reset and reuse" witness=e7_eviction_reset timeout=3000 heavy=yes
+//@harness e7_two_blocks kind=proof fn=MatchGenerator::next_sequence,MatchGenerator::add_data,MatchGenerator::reserve,MatchGenerator::skip_matching,MatchGenerator::add_suffixes_till,SuffixStore::insert,SuffixStore::get,SuffixStore::key props=C17,C15,C02 tier=quick profile=dbg bound="2 blocks of 6 bytes over the alphabet {0,1} (all 2^12 contents), window 12 bytes, 8-slot suffix store" witness=e7_two_blocks timeout=3000 heavy=yes
+//@harness e7_eviction_reset kind=proof fn=MatchGenerator::next_sequence,MatchGenerator::add_data,MatchGenerator::reserve,MatchGenerator::reset props=C17 tier=quick profile=dbg bound="blocks of 6 bytes over {0,1}, window 9 bytes (eviction), reset and reuse" witness=e7_eviction_reset timeout=3000 heavy=yes
 //@harness e7_cover kind=cover props=C17 tier=quick profile=dbg timeout=3000 heavy=yes
